@@ -749,25 +749,32 @@ def _strip(case):
 
 
 def run(ctx):
-  # Part B first (cheap, count-limited)
-  nd = (3200 if ctx.quick else 100000) // ctx.n + 1
-  core.hyp_run(ctx, G.delta_case_st(), lambda c: oracle_delta(ctx, c), nd,
-               name="c20_delta")
-  ns = (96 if ctx.quick else 3000) // ctx.n + 1
-  core.hyp_run(ctx, G.size_case_st(), lambda c: oracle_size(ctx, c), ns,
-               name="c20_size")
+  nd = (3200 if ctx.quick else 50000) // ctx.n + 1
+  ns = (96 if ctx.quick else 1600) // ctx.n + 1
   nt = (128 if ctx.quick else 4000) // ctx.n + 1
-  if ctx.quick:
-    # sampled specs/decisions first (count-limited, stops at the soft cap),
-    # then the ~120 leaves of the fixed specs, which are always judged
+
+  def part_b():
+    core.hyp_run(ctx, G.delta_case_st(), lambda c: oracle_delta(ctx, c), nd,
+                 name="c20_delta")
+    core.hyp_run(ctx, G.size_case_st(), lambda c: oracle_size(ctx, c), ns,
+                 name="c20_size")
+
+  def sampled():
     core.hyp_run(ctx, G.trial_case_st(), lambda c: oracle_trial(ctx, c), nt,
                  name="c20_trial")
+
+  if ctx.quick:
+    # everything is count-limited; the ~120 leaves of the fixed specs are
+    # always judged, the Hypothesis parts stop at the soft cap
+    part_b()
+    sampled()
     exhaustive = run_dfs(ctx, reserve=-1e9)
   else:
-    # ~1000 leaves first (may use up to 60% of the budget), then sampling
-    exhaustive = run_dfs(ctx, reserve=0.4 * ctx.budget_s)
-    core.hyp_run(ctx, G.trial_case_st(), lambda c: oracle_trial(ctx, c), nt,
-                 name="c20_trial")
+    # ~1000 leaves first (up to 65% of the budget), then Part B, then sampling
+    # until the soft cap
+    exhaustive = run_dfs(ctx, reserve=0.35 * ctx.budget_s)
+    part_b()
+    sampled()
   # core.merge_results sums numeric info: dfs_complete_workers == number of
   # workers means every leaf of every fixed spec was judged.
   ctx.info["dfs_complete_workers"] = 1 if exhaustive else 0
